@@ -165,3 +165,42 @@ Example C12_create_fault_example :
   fs_run c (cr_fail_at 0 (EIo 7)) mf_concat [e; e; e; e] = (1, Fail (EIo 7)) /\
   (exists out, fs_run c cr_never mf_concat [e; e; e; e] = (4, Done out)).
 Proof. split; [vm_compute; reflexivity|eexists; vm_compute; reflexivity]. Qed.
+
+(* ================= an I/O error of a source inside the merger =================
+   Over any cursor type: when at least one source fails its next move with the error e after yielding some
+   entries (the others yield theirs and end), the merge returns an error — e, or a failure of the merge
+   function that came first — never a result, never a panic.  For reader cursors over well-formed stores
+   whose loaders may each fail one block load: the merge is the merge of the plain sources, or returns the
+   injected error (or the merge function's own failure). *)
+From Grenad.model Require Import Merger.
+From Grenad.proofs Require Import MergeCursors MergeSourceFault.
+
+Theorem C12_merger_source_fault : forall S snext e mf,
+  (forall a k vs, mf a k vs <> Panic) ->
+  forall calls fuel srcs ds,
+  Forall2 (srcdesc S snext e) srcs ds -> existsb fst ds = true -> (tot ds < fuel)%nat ->
+  exists x, cm_run S snext mf calls fuel srcs = Fail x /\ (x = e \/ mf_fails mf x).
+Proof. exact cm_run_source_fault. Qed.
+Print Assumptions C12_merger_source_fault.
+
+Theorem C12_merger_reader_fault : forall mf calls srcs srcs' ess,
+  (forall a k vs, mf a k vs <> Panic) ->
+  Forall2 reader_source srcs ess -> Forall2 faulted srcs srcs' ->
+  cm_run rsrc rsnext mf calls (S (total_len ess)) srcs' = merge_run mf calls ess \/
+  exists x, cm_run rsrc rsnext mf calls (S (total_len ess)) srcs' = Fail x /\
+            (x = EIo IO_INJECTED \/ mf_fails mf x).
+Proof. exact merge_source_fault. Qed.
+Print Assumptions C12_merger_reader_fault.
+
+(* non-vacuity: cursors over lists of option entry, None = the failing move *)
+Definition ex_next (l : list (option entry)) : outcome (list (option entry) * option entry) :=
+  match l with [] => Done ([], None) | Some x :: r => Done (r, Some x) | None :: _ => Fail (EIo 7) end.
+Example C12_merger_source_fault_example :
+  srcdesc _ ex_next (EIo 7) [Some ([1], [1]); Some ([3], [1]); None] (true, [([1], [1]); ([3], [1])]) /\
+  srcdesc _ ex_next (EIo 7) [Some ([2], [2])] (false, [([2], [2])]) /\
+  cm_run _ ex_next mf_concat 0 4 [[Some ([1], [1]); Some ([3], [1]); None]; [Some ([2], [2])]] = Fail (EIo 7).
+Proof.
+  split; [|split]; [| |vm_compute; reflexivity].
+  - cbn. eexists. split; [reflexivity|]. eexists. split; reflexivity.
+  - cbn. eexists. split; [reflexivity|]. eexists. reflexivity.
+Qed.
